@@ -32,6 +32,8 @@ _re_temporal = re.compile(r"Error: Temporal properties were violated")
 def run_tlc(module, cfg, *, name=None, workers=16, xmx="6g", timeout=3600, extra=(), env=None, cwd=SPEC, simulate=None):
     """Run TLC on spec/<module>.tla with spec/<cfg>. Returns dict with parsed statistics and raw output."""
     name = name or f"{module}_{os.path.basename(cfg)}".replace(".", "_")
+    if os.environ.get("VERIF_REPO"):
+        name += "_scratch" + os.environ.get("VERIF_RUN_ID", "0")      # runs against scratch copies may overlap with runs against /repo
     meta = workdir(os.path.join("tlc", name))
     cmd = _java(xmx, 2 if workers == 1 else 8) + ["tlc2.TLC", "-workers", str(workers), "-metadir", meta, "-noGenerateSpecTE", "-config", cfg]
     if simulate:
@@ -96,7 +98,7 @@ def _validate_one(args):
     module, cfg, trace, idx, xmx, timeout, extra_env = args
     env = {"TRACE_FILE": trace}
     env.update(extra_env or {})
-    res = run_tlc(module, cfg, name=f"tv_{module}_{idx}", workers=1, xmx=xmx, timeout=timeout, env=env)
+    res = run_tlc(module, cfg, name=f"tv_{module}_{os.environ.get('VERIF_RUN_ID', 'r')}_{os.getpid()}_{idx}", workers=1, xmx=xmx, timeout=timeout, env=env)
     vals = tlaval.parse_many(res["out"])
     summary = [v for v in vals if isinstance(v, list) and v and v[0] == "validated"]
     rejects = [v for v in vals if isinstance(v, list) and v and v[0] == "REJECT"]
@@ -154,6 +156,8 @@ def shard_events(events, name, nshards=16, max_per=None):
 def dump_states(module, cfg, *, name=None, workers=16, xmx="6g", timeout=3600, env=None):
     """Model-check and dump all distinct states; returns (res, list of state dicts var->value)."""
     name = name or f"dump_{module}"
+    if os.environ.get("VERIF_REPO"):
+        name += "_scratch" + os.environ.get("VERIF_RUN_ID", "0")
     d = workdir(os.path.join("dump", name))
     f = os.path.join(d, "states")
     res = run_tlc(module, cfg, name=name, workers=workers, xmx=xmx, timeout=timeout, extra=["-dump", f], env=env)
